@@ -1,2 +1,43 @@
-/- Properties/C06.lean — placeholder until the container proofs land -/
-import Model.Container
+/-
+  Properties/C06.lean — truncated or sync-corrupted files never yield records that were not written.
+  Lemmas: Proofs/Container.lean (generic in the record decoder and in any sound codec: for a
+  compressed payload the statement uses only `decompress (compress x) = x` and the fact that
+  `read_bytes` length-checks the compressed payload before decompression runs).
+-/
+import Proofs.Container
+import Properties.C03
+
+open Binary Container ContainerProofs
+
+/-- **C06 (truncation).** reading any prefix `p` of a well-formed block area yields exactly the
+    records of the first `j` blocks for some `j` — never a record that was not written, a reordered
+    or a partially decoded one — and ends normally only if `p` is exactly those `j` blocks, i.e. the
+    cut falls on a block boundary. (The header is read by the record decoder, so C03's prefix theorem
+    covers cuts inside the header.) -/
+theorem c06_truncation (dec : Bytes → R (Val × Bytes)) (c : Codec) (hs : c.Sound) (sync : Bytes) (hsync : sync.length = 16)
+    (bs : List Blk) (hok : ∀ b ∈ bs, b.Ok dec c) (k : Nat) (p q : Bytes) (hk : bs.length < k)
+    (hpq : p ++ q = flat c sync bs) :
+    ∃ j, j ≤ bs.length ∧ (readBlocks dec c sync k p).1 = (bs.take j).flatMap (·.recs) ∧
+      ((readBlocks dec c sync k p).2 = .eof → p = flat c sync (bs.take j)) :=
+  read_prefix dec c hs sync hsync bs hok k p q hk hpq
+
+/-- conversely a cut on a block boundary ends normally with the records of the blocks before it -/
+theorem c06_boundary (dec : Bytes → R (Val × Bytes)) (c : Codec) (hs : c.Sound) (sync : Bytes) (hsync : sync.length = 16)
+    (bs : List Blk) (hok : ∀ b ∈ bs, b.Ok dec c) (j k : Nat) (hk : bs.length < k) :
+    readBlocks dec c sync k (flat c sync (bs.take j)) = ((bs.take j).flatMap (·.recs), .eof) :=
+  read_flat dec c hs sync hsync (bs.take j) (fun b hb => hok b (List.mem_of_mem_take hb)) k
+    (Nat.lt_of_le_of_lt (List.length_take_le' _ _) hk)
+
+/-- **C06 (sync).** any alteration of the marker that follows block `b` is reported as an error when
+    that block is reached: the records of the blocks up to and including `b` are yielded, then ValueError -/
+theorem c06_sync (dec : Bytes → R (Val × Bytes)) (c : Codec) (hs : c.Sound) (sync : Bytes) (hsync : sync.length = 16)
+    (pre : List Blk) (b : Blk) (hpre : ∀ x ∈ pre, x.Ok dec c) (hb : b.Ok dec c)
+    (s' rest : Bytes) (hlen : s'.length = 16) (hne : s' ≠ sync) (k : Nat) (hk : pre.length < k) :
+    readBlocks dec c sync k (flat c sync pre ++ (lenBytes ↑b.count ++ (lenBytes ↑(c.compress b.payload).length ++
+        (c.compress b.payload ++ (s' ++ rest))))) = (pre.flatMap (·.recs) ++ b.recs, .error .value) :=
+  read_altered_sync dec c hs sync hsync pre b hpre hb s' rest hlen hne k hk
+
+/-- **C06 (schemaless).** decoding any proper prefix of a schemaless encoding never returns a value -/
+theorem c06_schemaless_prefix (env : Env) (s : Schema) (v : Val) (p q : Bytes) (h : Spec.Enc env s v (p ++ q))
+    (hq : q ≠ []) : ∀ f v' r', readData f env {} s p ≠ .ok (v', r') :=
+  c03_prefix env s v p q h hq
